@@ -8,7 +8,8 @@ on the monomorphic instance of every k-mer type — from_bytes / from_ascii / to
 the immutable writers MerImmut::set / set_slice (runs up to 32 bases) produce the specified lanes (the byte tables
 base_to_bits / bits_to_base being uninterpreted here and decided in C16.1).
 This decides the bit-level behaviour of the listed operations, by abstract interpretation of the monomorphic MIR;
-nothing is executed and no k-mer value is enumerated."""
+nothing is executed and no k-mer value is enumerated.
+Added later: in-register counting decided by the sum-field domain, checked conversions by case split, immutable writes, base iteration through Mer::iter, the ASCII byte tables."""
 from .. import dt_strings, lemmas, structural, dt_seq
 from . import common
 
